@@ -502,13 +502,13 @@ theorem held_erase {a : Alloc} (hk : KeysNodup a) (h : Option Cand) :
         exact hnot (by rw [← hc]; exact List.mem_map_of_mem hhp)
       have e1 : allocErase ((h', p) :: ys) h' = ys := by
         unfold allocErase at hfil ⊢
-        rw [List.filter_cons]; simp [hfil]
+        rw [List.filter_cons, hfil]; simp
       have e2 : allocPile ((h', p) :: ys) h' = p := by simp [allocPile]
       rw [e1, e2, held_cons]; ring
     · have e1 : allocErase ((h', p) :: ys) h = (h', p) :: allocErase ys h := by
         unfold allocErase; rw [List.filter_cons]; simp [he]
       have e2 : allocPile ((h', p) :: ys) h = allocPile ys h := by
-        simp [allocPile, List.find?_cons, he]
+        simp [allocPile, he]
       rw [e1, e2, held_cons, held_cons, ← ih hk']; ring
 
 theorem continuing_erase (a : Alloc) (c : Cand) :
@@ -593,7 +593,9 @@ theorem transferGo_spec {E : Engine} (hE : EngineOK E) {cont : List Cand} {rs : 
       have hc0 : ∀ t ∈ cont, t ∈ continuing (allocErase a (some c)) := by
         intro t ht
         rw [continuing_erase]
-        exact List.mem_filter.mpr ⟨hc t ht, by simpa using fun he => hcc (he ▸ ht)⟩
+        refine List.mem_filter.mpr ⟨hc t ht, ?_⟩
+        have : t ≠ c := fun he => hcc (he ▸ ht)
+        simpa using this
       have s1 := movePile_spec hE hc0 hm
       have s2 := ih (a := a1) (by rw [s1.cont_eq]; exact hc0) (fun d hd => hr d (List.mem_cons_of_mem _ hd)) h
       refine ⟨?_, ?_, fun hk => s2.keys (s1.keys (hk.erase _)), fun hn => s2.nonneg (s1.nonneg (hn.erase _) (hn.pile _)), ?_⟩
@@ -602,8 +604,7 @@ theorem transferGo_spec {E : Engine} (hE : EngineOK E) {cont : List Cand} {rs : 
       · rw [s2.cont_eq, s1.cont_eq, continuing_erase, List.filter_filter]
         congr 1
         funext x
-        simp only [List.mem_cons, not_or, ne_eq, decide_not, Bool.and_eq_true, Bool.not_eq_eq_eq_not,
-          Bool.not_true, decide_eq_false_iff_not, Bool.decide_and]
+        simp only [List.mem_cons, not_or, ne_eq, decide_not, Bool.decide_and]
         by_cases h1 : x = c <;> by_cases h2 : x ∈ rest <;> simp [h1, h2]
       · intro hp hhp x hx
         obtain ⟨hp1, hm1, ⟨w1, hw1⟩, hrel⟩ := s2.entry hp hhp x hx
@@ -649,5 +650,465 @@ theorem transfer_continuing {E : Engine} (hE : EngineOK E) {a a' : Alloc} {cands
   apply List.filter_congr
   intro x hx
   simp [List.mem_filter, hx]
+
+
+/-! ### subtraction of quotas -/
+
+theorem allocKeys_setPile (a : Alloc) (h : Option Cand) (p' : Pile) :
+    allocKeys (allocSetPile a h p') = allocKeys a := by
+  induction a with
+  | nil => rfl
+  | cons y ys ih =>
+    obtain ⟨h', p⟩ := y
+    simp only [allocSetPile]
+    split
+    · simp [allocKeys]
+    · simp only [allocKeys, List.map_cons] at ih ⊢; rw [ih]
+
+theorem mem_setPile {a : Alloc} {h : Option Cand} {p' : Pile} {hp : Option Cand × Pile}
+    (hhp : hp ∈ allocSetPile a h p') : hp ∈ a ∨ hp = (h, p') := by
+  induction a with
+  | nil => simp [allocSetPile] at hhp
+  | cons y ys ih =>
+    obtain ⟨h', p⟩ := y
+    simp only [allocSetPile] at hhp
+    split at hhp
+    · rename_i heq
+      rcases List.mem_cons.mp hhp with h1 | h1
+      · right; rw [h1, heq]
+      · left; exact List.mem_cons_of_mem _ h1
+    · rcases List.mem_cons.mp hhp with h1 | h1
+      · left; rw [h1]; exact List.mem_cons_self
+      · rcases ih h1 with h2 | h2
+        · left; exact List.mem_cons_of_mem _ h2
+        · right; exact h2
+
+theorem allocPile_setPile_ne (a : Alloc) {h h' : Option Cand} (p' : Pile) (hne : h' ≠ h) :
+    allocPile (allocSetPile a h p') h' = allocPile a h' := by
+  induction a with
+  | nil => rfl
+  | cons y ys ih =>
+    obtain ⟨k, p⟩ := y
+    simp only [allocSetPile]
+    split
+    · rename_i heq
+      have : k ≠ h' := fun e => hne (e ▸ heq ▸ rfl)
+      simp [allocPile, this]
+    · by_cases hk : k = h'
+      · simp [allocPile, hk]
+      · simp only [allocPile, List.find?_cons, hk, decide_false] at ih ⊢
+        exact ih
+
+theorem held_setPile {a : Alloc} (hk : KeysNodup a) {h : Option Cand} (p' : Pile) (hm : h ∈ allocKeys a) :
+    held (allocSetPile a h p') = held a - pileTotal (allocPile a h) + pileTotal p' := by
+  induction a with
+  | nil => simp [allocKeys] at hm
+  | cons y ys ih =>
+    obtain ⟨h', p⟩ := y
+    have hk' : KeysNodup ys := (List.nodup_cons.mp hk).2
+    have hnot : h' ∉ allocKeys ys := (List.nodup_cons.mp hk).1
+    simp only [allocSetPile]
+    split
+    · rename_i heq
+      subst heq
+      simp [allocPile]; ring
+    · rename_i hne
+      have hm' : h ∈ allocKeys ys := by
+        simp only [allocKeys, List.map_cons, List.mem_cons] at hm
+        rcases hm with h1 | h1
+        · exact absurd h1.symm hne
+        · exact h1
+      have e2 : allocPile ((h', p) :: ys) h = allocPile ys h := by simp [allocPile, hne]
+      rw [held_cons, ih hk' hm', e2, held_cons]; ring
+
+structure SubSpec (el : List (Cand × Rat)) (a a' : Alloc) : Prop where
+  keys_eq : allocKeys a' = allocKeys a
+  held_eq : KeysNodup a → (el.map (·.1)).Nodup → (∀ x ∈ el, some x.1 ∈ allocKeys a) →
+    (∀ x ∈ el, x.2 ≤ pileTotal (allocPile a (some x.1))) → held a' = held a - (el.map (·.2)).sum
+  nonneg : NonNeg a → NonNeg a'
+  entry : ∀ hp ∈ a', ∀ x ∈ hp.2, ∃ hp0 ∈ a, hp0.1 = hp.1 ∧ ∃ w, (x.1, w) ∈ hp0.2
+  other : ∀ h, (∀ x ∈ el, h ≠ some x.1) → allocPile a' h = allocPile a h
+
+theorem subtract_spec {E : Engine} (hE : EngineOK E) {el : List (Cand × Rat)} {a a' : Alloc} {ds ds' : List Draw}
+    (h : subtract E el a ds = .ok (a', ds')) : SubSpec el a a' := by
+  induction el generalizing a ds with
+  | nil =>
+    simp only [subtract] at h
+    injection h with h; injection h with h1 h2; subst h1
+    exact ⟨rfl, fun _ _ _ _ => by simp, id, fun hp hhp x hx => ⟨hp, hhp, rfl, x.2, hx⟩, fun _ _ => rfl⟩
+  | cons cn rest ih =>
+    obtain ⟨c, n⟩ := cn
+    simp only [subtract] at h
+    cases hs : E.subtract (allocPile a (some c)) n ds with
+    | error e => rw [hs] at h; simp [bind, Except.bind] at h
+    | ok v =>
+      obtain ⟨p', ds1⟩ := v
+      rw [hs] at h
+      simp only [bind, Except.bind] at h
+      have s2 := ih h
+      refine ⟨by rw [s2.keys_eq, allocKeys_setPile], ?_, ?_, ?_, ?_⟩
+      · intro hk hnd hmem hle
+        have hnd' := List.nodup_cons.mp hnd
+        have hk1 : KeysNodup (allocSetPile a (some c) p') := by unfold KeysNodup; rw [allocKeys_setPile]; exact hk
+        have hoth : ∀ x ∈ rest, allocPile (allocSetPile a (some c) p') (some x.1) = allocPile a (some x.1) := by
+          intro x hx
+          apply allocPile_setPile_ne
+          intro he; injection he with he
+          exact hnd'.1 (List.mem_map.mpr ⟨x, hx, he⟩)
+        rw [s2.held_eq hk1 hnd'.2 (by intro x hx; rw [allocKeys_setPile]; exact hmem x (List.mem_cons_of_mem _ hx))
+          (by intro x hx; rw [hoth x hx]; exact hle x (List.mem_cons_of_mem _ hx)),
+          held_setPile hk p' (hmem (c, n) List.mem_cons_self),
+          hE.sub_total hs (hle (c, n) List.mem_cons_self)]
+        simp; ring
+      · intro hn
+        apply s2.nonneg
+        intro hp hhp x hx
+        rcases mem_setPile hhp with h1 | h1
+        · exact hn hp h1 x hx
+        · subst h1; exact hE.sub_nonneg hs (hn.pile _) x hx
+      · intro hp hhp x hx
+        obtain ⟨hp1, hm1, hk1, w1, hw1⟩ := s2.entry hp hhp x hx
+        rcases mem_setPile hm1 with h1 | h1
+        · exact ⟨hp1, h1, hk1, w1, hw1⟩
+        · subst h1
+          obtain ⟨w0, hw0⟩ := hE.sub_keys hs _ hw1
+          obtain ⟨hp0, hm0, hk0, hx0⟩ := allocPile_mem hw0
+          exact ⟨hp0, hm0, by rw [hk0, ← hk1], w0, hx0⟩
+      · intro k hkne
+        rw [s2.other k (fun x hx => hkne x (List.mem_cons_of_mem _ hx))]
+        exact allocPile_setPile_ne a p' (hkne (c, n) List.mem_cons_self)
+
+
+/-! ### the two transferers meet the specification -/
+
+theorem pileTotal_scale (p : Pile) (k : Rat) :
+    pileTotal (p.map (fun bw => (bw.1, bw.2 * k))) = pileTotal p * k := by
+  induction p with
+  | nil => simp
+  | cons x xs ih => simp only [List.map_cons, pileTotal_cons, ih]; ring
+
+theorem sum_map_const (ts : List Cand) (k : Rat) :
+    ((ts.map (fun c => (c, k))).map (·.2)).sum = (ts.length : Rat) * k := by
+  induction ts with
+  | nil => simp
+  | cons x xs ih => simp only [List.map_cons, List.sum_cons, ih, List.length_cons]; push_cast; ring
+
+theorem pileTotal_nonneg {p : Pile} (hp : ∀ x ∈ p, 0 ≤ x.2) : 0 ≤ pileTotal p := by
+  induction p with
+  | nil => simp
+  | cons x xs ih =>
+    rw [pileTotal_cons]
+    exact add_nonneg (hp x List.mem_cons_self) (ih (fun y hy => hp y (List.mem_cons_of_mem _ hy)))
+
+/-- **`subtractGregory` scales a pile exactly**: the pile keeps `total − n` -/
+theorem gregorySubtract_total {p p' : Pile} {n : Rat} (h : gregorySubtract p n = .ok p') (hn : n ≤ pileTotal p) :
+    pileTotal p' = pileTotal p - n := by
+  unfold gregorySubtract at h
+  simp only at h
+  split at h
+  · cases h
+  · rename_i hne
+    split at h
+    · rename_i hge
+      injection h with h; subst h
+      have : n = pileTotal p := le_antisymm hn hge
+      simp [this]
+    · injection h with h; subst h
+      rw [pileTotal_scale]
+      field_simp
+
+theorem gregory_ok : EngineOK gregory where
+  sub_total := by
+    intro p n ds p' ds' h hn
+    simp only [gregory] at h
+    cases hg : gregorySubtract p n with
+    | error e => rw [hg] at h; cases h
+    | ok q =>
+      rw [hg] at h
+      simp only [Except.map] at h
+      injection h with h; injection h with h1 h2; subst h1
+      exact gregorySubtract_total hg hn
+  sub_nonneg := by
+    intro p n ds p' ds' h hp
+    simp only [gregory] at h
+    cases hg : gregorySubtract p n with
+    | error e => rw [hg] at h; cases h
+    | ok q =>
+      rw [hg] at h
+      simp only [Except.map] at h
+      injection h with h; injection h with h1 h2; subst h1
+      unfold gregorySubtract at hg
+      simp only at hg
+      split at hg
+      · cases hg
+      · rename_i hne
+        split at hg
+        · injection hg with hg; subst hg; intro x hx; cases hx
+        · rename_i hlt
+          injection hg with hg; subst hg
+          intro x hx
+          obtain ⟨y, hy, rfl⟩ := List.mem_map.mp hx
+          have hpos : 0 < pileTotal p := lt_of_le_of_ne (pileTotal_nonneg hp) (Ne.symm hne)
+          have : 0 ≤ (pileTotal p - n) / pileTotal p :=
+            div_nonneg (by linarith [not_le.mp hlt]) (le_of_lt hpos)
+          exact mul_nonneg (hp y hy) this
+  sub_keys := by
+    intro p n ds p' ds' h
+    simp only [gregory] at h
+    cases hg : gregorySubtract p n with
+    | error e => rw [hg] at h; cases h
+    | ok q =>
+      rw [hg] at h
+      simp only [Except.map] at h
+      injection h with h; injection h with h1 h2; subst h1
+      unfold gregorySubtract at hg
+      simp only at hg
+      split at hg
+      · cases hg
+      · split at hg
+        · injection hg with hg; subst hg; intro x hx; cases hx
+        · injection hg with hg; subst hg
+          intro x hx
+          obtain ⟨y, hy, rfl⟩ := List.mem_map.mp hx
+          exact ⟨y.2, hy⟩
+  split_sum := by
+    intro ts w ds r ds' h hne
+    simp only [gregory] at h
+    injection h with h; injection h with h1 h2; subst h1
+    have hlen : (ts.length : Rat) ≠ 0 := by
+      have : ts.length ≠ 0 := fun h0 => hne (List.length_eq_zero_iff.mp h0)
+      exact_mod_cast this
+    rw [gregorySplit, sum_map_const]
+    field_simp
+  split_keys := by
+    intro ts w ds r ds' h x hx
+    simp only [gregory] at h
+    injection h with h; injection h with h1 h2; subst h1
+    obtain ⟨c, hc, rfl⟩ := List.mem_map.mp hx
+    exact hc
+  split_nonneg := by
+    intro ts w ds r ds' h hw x hx
+    simp only [gregory] at h
+    injection h with h; injection h with h1 h2; subst h1
+    obtain ⟨c, hc, rfl⟩ := List.mem_map.mp hx
+    exact div_nonneg hw (Nat.cast_nonneg _)
+
+/-- the equal-rank split of Gregory is exactly equal -/
+theorem gregorySplit_equal (ts : List Cand) (w : Rat) :
+    ∀ x ∈ gregorySplit ts w, x.2 = w / (ts.length : Rat) := by
+  intro x hx
+  obtain ⟨c, _, rfl⟩ := List.mem_map.mp hx
+  rfl
+
+theorem hareApply_total {ans : List (Ballot × Rat)} {p : Pile}
+    (hle : ∀ bw ∈ p, (lookupB ans bw.1).getD 0 ≤ bw.2) :
+    pileTotal (hareApply ans p) = pileTotal p - (takenFrom ans p).sum := by
+  induction p with
+  | nil => simp [hareApply, takenFrom]
+  | cons x xs ih =>
+    have ih' := ih (fun bw hbw => hle bw (List.mem_cons_of_mem _ hbw))
+    have hx := hle x List.mem_cons_self
+    simp only [hareApply, takenFrom, List.filterMap_cons, List.map_cons, List.sum_cons] at ih' ⊢
+    cases hl : lookupB ans x.1 with
+    | none => simp only [Option.getD_none, pileTotal_cons]; rw [ih']; ring
+    | some s =>
+      simp only [hl, Option.getD_some] at hx ⊢
+      by_cases hge : s ≥ x.2
+      · rw [if_pos hge, ih']
+        have : s = x.2 := le_antisymm hx hge
+        rw [pileTotal_cons, this]; ring
+      · rw [if_neg hge, pileTotal_cons, pileTotal_cons, ih']; ring
+
+theorem sum_ratAdd1 (r : List (Cand × Rat)) (c : Cand) (k : Rat) :
+    ((ratAdd1 r c k).map (·.2)).sum = (r.map (·.2)).sum + k := by
+  induction r with
+  | nil => simp [ratAdd1]
+  | cons x xs ih =>
+    obtain ⟨c', k'⟩ := x
+    simp only [ratAdd1]
+    split
+    · simp; ring
+    · simp only [List.map_cons, List.sum_cons, ih]; ring
+
+theorem mem_ratAdd1 {r : List (Cand × Rat)} {c : Cand} {k : Rat} {x : Cand × Rat} (hx : x ∈ ratAdd1 r c k) :
+    (x.1 = c ∧ ((∃ k', (c, k') ∈ r ∧ x.2 = k' + k) ∨ x.2 = 0 + k)) ∨ x ∈ r := by
+  induction r with
+  | nil => simp [ratAdd1] at hx; left; rw [hx]; exact ⟨rfl, Or.inr (by simp)⟩
+  | cons y ys ih =>
+    obtain ⟨c', k'⟩ := y
+    simp only [ratAdd1] at hx
+    split at hx
+    · rename_i heq
+      rcases List.mem_cons.mp hx with h | h
+      · left; rw [h]; exact ⟨heq, Or.inl ⟨k', by rw [heq]; exact List.mem_cons_self, rfl⟩⟩
+      · right; exact List.mem_cons_of_mem _ h
+    · rcases List.mem_cons.mp hx with h | h
+      · right; rw [h]; exact List.mem_cons_self
+      · rcases ih h with ⟨h1, h2⟩ | h2
+        · left
+          refine ⟨h1, ?_⟩
+          rcases h2 with ⟨k'', hk, he⟩ | he
+          · exact Or.inl ⟨k'', List.mem_cons_of_mem _ hk, he⟩
+          · exact Or.inr he
+        · right; exact List.mem_cons_of_mem _ h2
+
+theorem foldl_ratAdd1 (ans r : List (Cand × Rat)) :
+    (((ans.foldl (fun r cs => ratAdd1 r cs.1 cs.2) r).map (·.2)).sum = (r.map (·.2)).sum + (ans.map (·.2)).sum) ∧
+    (∀ x ∈ ans.foldl (fun r cs => ratAdd1 r cs.1 cs.2) r, (∃ y ∈ r, y.1 = x.1) ∨ ∃ y ∈ ans, y.1 = x.1) ∧
+    ((∀ y ∈ r, 0 ≤ y.2) → (∀ y ∈ ans, 0 ≤ y.2) → ∀ x ∈ ans.foldl (fun r cs => ratAdd1 r cs.1 cs.2) r, 0 ≤ x.2) := by
+  induction ans generalizing r with
+  | nil => exact ⟨by simp, fun x hx => Or.inl ⟨x, hx, rfl⟩, fun hr _ => hr⟩
+  | cons a as ih =>
+    simp only [List.foldl_cons]
+    obtain ⟨i1, i2, i3⟩ := ih (ratAdd1 r a.1 a.2)
+    refine ⟨?_, ?_, ?_⟩
+    · rw [i1, sum_ratAdd1]; simp; ring
+    · intro x hx
+      rcases i2 x hx with ⟨y, hy, he⟩ | ⟨y, hy, he⟩
+      · rcases mem_ratAdd1 hy with ⟨h1, _⟩ | h1
+        · right; exact ⟨a, List.mem_cons_self, by rw [← he, h1]⟩
+        · left; exact ⟨y, h1, he⟩
+      · right; exact ⟨y, List.mem_cons_of_mem _ hy, he⟩
+    · intro hr ha
+      apply i3
+      · intro y hy
+        have ha0 := ha a List.mem_cons_self
+        rcases mem_ratAdd1 hy with ⟨_, ⟨k', hk, he⟩ | he⟩ | h1
+        · rw [he]; exact add_nonneg (hr _ hk) ha0
+        · rw [he]; simpa using ha0
+        · exact hr y h1
+      · exact fun y hy => ha y (List.mem_cons_of_mem _ hy)
+
+theorem hareSplit_ok {ts : List Cand} {w : Rat} {ds ds' : List Draw} {r : List (Cand × Rat)}
+    (h : hareSplit ts w ds = .ok (r, ds')) :
+    ∃ first : List (Cand × Rat), ∃ rem : Rat,
+      ((((w / (ts.length : Rat)).floor : Rat) ≠ 0 ∧ first = ts.map (fun c => (c, ((w / (ts.length : Rat)).floor : Rat))) ∧
+          rem = w - (ts.length : Rat) * ((w / (ts.length : Rat)).floor : Rat)) ∨
+        (((w / (ts.length : Rat)).floor : Rat) = 0 ∧ first = [] ∧ rem = w)) ∧
+      ((((w / (ts.length : Rat)).floor : Rat) ≠ 0 ∧ rem = 0 ∧ r = first) ∨
+        ∃ ans, candsOK ans ts rem = true ∧ r = ans.foldl (fun r cs => ratAdd1 r cs.1 cs.2) first) := by
+  unfold hareSplit at h
+  simp only at h
+  by_cases hw : ((w / (ts.length : Rat)).floor : Rat) ≠ 0
+  · simp only [if_pos hw] at h
+    refine ⟨_, _, Or.inl ⟨hw, rfl, rfl⟩, ?_⟩
+    by_cases hr : w - (ts.length : Rat) * ((w / (ts.length : Rat)).floor : Rat) = 0
+    · rw [if_pos ⟨hw, hr⟩] at h
+      injection h with h; injection h with h1 h2
+      exact Or.inl ⟨hw, hr, h1.symm⟩
+    · rw [if_neg (fun hc => hr hc.2)] at h
+      split at h
+      · rename_i ans ds1
+        split at h
+        · rename_i hok
+          injection h with h; injection h with h1 h2
+          exact Or.inr ⟨ans, hok, h1.symm⟩
+        · cases h
+      · cases h
+  · simp only [if_neg hw] at h
+    refine ⟨_, _, Or.inr ⟨not_not.mp hw, rfl, rfl⟩, ?_⟩
+    rw [if_neg (fun hc => hw hc.1)] at h
+    split at h
+    · rename_i ans ds1
+      split at h
+      · rename_i hok
+        injection h with h; injection h with h1 h2
+        exact Or.inr ⟨ans, hok, h1.symm⟩
+      · cases h
+    · cases h
+
+theorem hare_ok : EngineOK hare where
+  sub_total := by
+    intro p n ds p' ds' h _
+    simp only [hare] at h
+    unfold hareSubtract at h
+    split at h
+    · rename_i ans ds1
+      split at h
+      · rename_i hok
+        injection h with h; injection h with h1 h2; subst h1
+        simp only [papersOK, Bool.and_eq_true, List.all_eq_true, decide_eq_true_eq] at hok
+        rw [hareApply_total hok.1.2, hok.2]
+      · cases h
+    · cases h
+  sub_nonneg := by
+    intro p n ds p' ds' h hp
+    simp only [hare] at h
+    unfold hareSubtract at h
+    split at h
+    · split at h
+      · injection h with h; injection h with h1 h2; subst h1
+        intro x hx
+        simp only [hareApply, List.mem_filterMap] at hx
+        obtain ⟨bw, hbw, he⟩ := hx
+        split at he
+        · injection he with he; subst he; exact hp bw hbw
+        · split at he
+          · cases he
+          · rename_i hlt
+            injection he with he; subst he
+            simp only; linarith [not_le.mp hlt]
+      · cases h
+    · cases h
+  sub_keys := by
+    intro p n ds p' ds' h
+    simp only [hare] at h
+    unfold hareSubtract at h
+    split at h
+    · split at h
+      · injection h with h; injection h with h1 h2; subst h1
+        intro x hx
+        simp only [hareApply, List.mem_filterMap] at hx
+        obtain ⟨bw, hbw, he⟩ := hx
+        split at he
+        · injection he with he; subst he; exact ⟨bw.2, hbw⟩
+        · split at he
+          · cases he
+          · injection he with he; subst he; exact ⟨bw.2, hbw⟩
+      · cases h
+    · cases h
+  split_sum := by
+    intro ts w ds r ds' h hne
+    obtain ⟨first, rem, hfr, hr⟩ := hareSplit_ok h
+    have hsum : (first.map (·.2)).sum + rem = w := by
+      rcases hfr with ⟨_, h1, h2⟩ | ⟨_, h1, h2⟩
+      · rw [h1, h2, sum_map_const]; ring
+      · rw [h1, h2]; simp
+    rcases hr with ⟨_, h1, h2⟩ | ⟨ans, hok, h2⟩
+    · rw [h2]; rw [h1] at hsum; linarith
+    · simp only [candsOK, Bool.and_eq_true, List.all_eq_true, decide_eq_true_eq] at hok
+      rw [h2, (foldl_ratAdd1 ans _).1, hok.2]; exact hsum
+  split_keys := by
+    intro ts w ds r ds' h x hx
+    obtain ⟨first, rem, hfr, hr⟩ := hareSplit_ok h
+    have hfirst : ∀ y ∈ first, y.1 ∈ ts := by
+      intro y hy
+      rcases hfr with ⟨_, h1, _⟩ | ⟨_, h1, _⟩
+      · rw [h1] at hy; obtain ⟨c, hc, rfl⟩ := List.mem_map.mp hy; exact hc
+      · rw [h1] at hy; cases hy
+    rcases hr with ⟨_, _, h2⟩ | ⟨ans, hok, h2⟩
+    · rw [h2] at hx; exact hfirst x hx
+    · simp only [candsOK, Bool.and_eq_true, List.all_eq_true, decide_eq_true_eq] at hok
+      rw [h2] at hx
+      rcases (foldl_ratAdd1 ans _).2.1 x hx with ⟨y, hy, he⟩ | ⟨y, hy, he⟩
+      · rw [← he]; exact hfirst y hy
+      · rw [← he]; exact (hok.1 y hy).2
+  split_nonneg := by
+    intro ts w ds r ds' h hw x hx
+    obtain ⟨first, rem, hfr, hr⟩ := hareSplit_ok h
+    have hwhole : (0 : Rat) ≤ ((w / (ts.length : Rat)).floor : Rat) := by
+      have : (0 : Int) ≤ (w / (ts.length : Rat)).floor :=
+        Rat.le_floor_iff.mpr (by simpa using div_nonneg hw (Nat.cast_nonneg _))
+      exact_mod_cast this
+    have hfirst : ∀ y ∈ first, 0 ≤ y.2 := by
+      intro y hy
+      rcases hfr with ⟨_, h1, _⟩ | ⟨_, h1, _⟩
+      · rw [h1] at hy; obtain ⟨c, _, rfl⟩ := List.mem_map.mp hy; exact hwhole
+      · rw [h1] at hy; cases hy
+    rcases hr with ⟨_, _, h2⟩ | ⟨ans, hok, h2⟩
+    · rw [h2] at hx; exact hfirst x hx
+    · simp only [candsOK, Bool.and_eq_true, List.all_eq_true, decide_eq_true_eq] at hok
+      rw [h2] at hx
+      exact (foldl_ratAdd1 ans _).2.2 hfirst (fun y hy => (hok.1 y hy).1) x hx
 
 end VL.STV
